@@ -384,7 +384,8 @@ def conclude(module, ctx, P, inconclusive, t0):
         "input_classes": dict(P.classes),
         "counters": dict(P.counters),
         "known_findings_observed": {k: {"count": v["count"], "what": v["what"], "deviation_keys": len(v["keys"]),
-                                        "deviation_keys_sample": sorted(v["keys"])[:40]}
+                                        "deviation_keys_sample": sorted(v["keys"])[:60],
+                                        "deviation_shapes": sorted(set(k.split("|", 1)[-1].split(",")[0] for k in v["keys"]))[:80]}
                                     for k, v in known_seen.items()},
         "violating_keys": {k: {"count": v["count"], "what": v["what"]} for k, v in violations.items()},
         "truncated_cases": P.truncated,
